@@ -150,9 +150,9 @@ def make_tls(rng, i, ctx):
     xs = np.round(rng.uniform(lo, hi, size=(D, npts)), 2)
     xs.sort(axis=1)
     truth = np.array([f(ptrue, xs[0, j] if D == 1 else xs[:, j]) for j in range(npts)])
-    negligible = bool(rng.random() < 0.35)
+    negligible = i % 3 == 1                 # a fixed third of the cases, with x errors of 1e-9, 1e-11, 1e-12 in turn (relative to x)
     ys = fitgen.data_points(rng, truth, 'independent', npts)
-    relx = 1e-9 if negligible else float(rng.uniform(0.003, 0.02))
+    relx = [1e-9, 1e-11, 1e-12][(i // 3) % 3] if negligible else float(rng.uniform(0.003, 0.02))
     xo = [[pe.Obs([xs[d, j] + relx * (abs(xs[d, j]) + 0.1) * rng.normal(size=20)], ['x%d_%02d' % (d, j)]) for j in range(npts)] for d in range(D)]
     for row in xo:
         for k, o in enumerate(row):
@@ -211,13 +211,13 @@ def fitlin_cases(rng, n, ctx):
     cases = []
     for i in range(n):
         npts = int(rng.integers(4, 8))
-        slope = float(rng.choice([0.7, -2.0, 3e4, 1e-3]))
+        slope = [0.7, 3e4, -2.0, 1e-3][i % 4]                     # slope x abscissa error x form of the abscissae in a fixed rotation
         icpt = float(np.round(rng.uniform(-1, 2), 2))
         xs = np.sort(np.round(rng.uniform(0.5, 4.0, size=npts), 2))
-        relx = float(rng.choice([1e-2, 1e-4, 1e-5, 1e-7]))
+        relx = [1e-2, 1e-7, 1e-4, 1e-5][(i // 4) % 4]
         ys = fitgen.data_points(rng, icpt + slope * xs, 'independent', npts)
         [o.gamma_method() for o in ys]
-        form = str(rng.choice(['obs', 'obs', 'floats', 'array', 'ints']))
+        form = ['obs', 'floats', 'obs', 'array', 'obs', 'ints', 'obs'][(i // 2) % 7]
 
         def f(a, x):
             return a[0] + a[1] * x
